@@ -20,6 +20,7 @@ R17.7 HALF-BOUNDARY     the comparison-based smod_2exp_* reductions send the val
                         to the negative side (non-strict on the upper half, strict on the lower)
 Soundness over the integer points is numeric: not decided.
 """
+import re
 from pplv import facts as F
 from pplv import flow
 
@@ -548,6 +549,52 @@ def r17_9(ctx):
     ctx.floor(rid, n, 2, "exact divisions by a range gcd")
 
 
+def r17_10(ctx):
+    from rules.c14 import units_alloc
+    rid = "R17.10"
+    ctx.rule(rid, "the complement of an index set ranges over the object's own dimension: a loop `for (i ..; i < BOUND; ..)` whose body selects the indices NOT in a set S (`S.find(i) == S.end()`, `S.count(i) == 0`) enumerates the complement of S within the space of the object; its upper bound is that space's dimension, not a quantity read off S itself (`S.space_dimension()`, `S.size()`, or a local initialised from them) — S only reaches up to its largest element, and the dimensions above it, which belong to the complement, would be skipped (drop_some_non_integer_points would leave them out of the variables it must not touch)")
+    fx = ctx.extract(units_alloc())
+    seen = set()
+    n = 0
+    for f in fx.functions:
+        if (f.relfile, f.line) in seen:
+            continue
+        seen.add((f.relfile, f.line))
+        for lp in f.walk():
+            if lp["k"] != "for" or len(lp.get("c", ())) < 4:
+                continue
+            cond = f.deref(lp["c"][1]) if len(lp["c"]) == 4 else f.deref(lp["c"][2])
+            body = f.deref(lp["c"][-1])
+            if cond is None or body is None:
+                continue
+            sets = set()
+            for x in f.walk(body):
+                if x["k"] in ("binop", "ocall") and x.get("op") in ("==", "!="):
+                    t = f.text(x).replace(" ", "")
+                    m = re.match(r"^\(?\*?(\w+)\)?(?:\.|->)find\((\w+)\)[!=]=\(?\*?\1\)?(?:\.|->)end\(\)$", t) or re.match(r"^\(?\*?(\w+)\)?(?:\.|->)count\((\w+)\)[!=]=0$", t)
+                    if m:
+                        sets.add((m.group(1), m.group(2)))
+            ct = f.text(cond).replace(" ", "")
+            for S, idx in sorted(sets):
+                if not re.match(r"^%s(<|<=|!=)" % re.escape(idx), ct):
+                    continue
+                n += 1
+                inst = "%s: complement of `%s` in the loop at line %s" % (f.name, S, lp.get("l"))
+                bound = ct.split("<", 1)[1].lstrip("=") if "<" in ct else ct.split("!=", 1)[1]
+                # the set itself, and locals holding its dimension or size
+                derived = set([S])
+                for v in f.walk():
+                    if v["k"] == "var" and v.get("c"):
+                        it_ = f.deref(v["c"][-1])
+                        if it_ is not None and re.match(r"^\(?\*?%s\)?(?:\.|->)(?:space_dimension|size)\(\)$" % re.escape(S), f.text(it_).replace(" ", "")):
+                            derived.add(v["n"])
+                if any(re.search(r"\b%s\b" % re.escape(d), bound) for d in derived):
+                    ctx.violation(rid, inst, f.where(lp), "the bound `%s` of the loop is read off the set itself: indices above its largest element, all of them in the complement, are never visited" % bound)
+                else:
+                    ctx.ok(rid, inst, f.where(lp))
+    ctx.floor(rid, n, 3, "complement loops")
+
+
 def run(ctx):
     ctx.explanation = ("C17 structural clauses of the generic wrap_assign and two comparison-strictness clauses of the interval version: quadrant indices are floors, every wrapped dimension is handled on every path, "
                        "full-range and overflow-impossible bounds are complete, quadrant loops cover first..last inclusive with the right translation; "
@@ -582,3 +629,4 @@ def run(ctx):
     r17_7(ctx, [sm[k] for k in sorted(sm)])
     r17_8(ctx)
     r17_9(ctx)
+    r17_10(ctx)
